@@ -94,6 +94,29 @@ def run_case(c):
                 if not np.allclose(one[t], ref, rtol=0, atol=1e-9 * scale):
                     res["fails"].append(["definition", "object %d spectrum %d differs from the FIR+DFT definition by %g" % (o, t, float(np.max(np.abs(one[t] - ref))))])
                     break
+    # window functions: several same-shaped objects with different windows live in one process; each must use its own
+    if c.get("window_order"):
+        import scipy.signal
+        objs = [(wf, P.PolyphaseFilterbank(num_taps=taps, num_branches=nb, window_fn=wf)) for wf in c["window_order"]]
+        rngw = np.random.default_rng(c.get("seed", 0))
+        xw = rngw.integers(-50, 50, 3 * taps * nb).astype(float)
+        for wf, pw in objs:
+            ref = scipy.signal.firwin(taps * nb, cutoff=1.0 / nb, window=wf, scale=True) * (taps * nb)
+            if pw.window.shape != ref.shape or not np.allclose(pw.window, ref, rtol=0, atol=1e-12 * (1 + float(np.max(np.abs(ref))))):
+                res["fails"].append(["window-fn", "a %dx%d filterbank built with window_fn=%r (after %s) does not carry that window's coefficients (max diff %g)"
+                                     % (taps, nb, wf, [w for w, _ in objs], float(np.max(np.abs(pw.window - ref))) if pw.window.shape == ref.shape else -1)])
+                break
+            one = pw.channelize(xw, cache=False)
+            hh = ref.reshape((taps, nb)); xs = xw.reshape((3 * taps, nb))
+            row = np.sum(xs[0:taps] * hh, axis=0)
+            want = (np.exp(-2j * np.pi * np.outer(np.arange(nb // 2), np.arange(nb)) / nb) @ row) / np.sqrt(nb)
+            if not np.allclose(one[0], want, rtol=0, atol=1e-9 * max(1.0, float(np.max(np.abs(want))))):
+                res["fails"].append(["window-fn", "spectrum 0 of a %dx%d filterbank with window_fn=%r is not the DFT of the sum weighted by that window" % (taps, nb, wf)])
+                break
+            v2 = np.asarray(P.get_pfb_voltages(xw, taps, nb, window_fn=wf))[:, :nb // 2]      # rfft: also returns the Nyquist channel
+            if v2.shape != one.shape or not np.allclose(v2, one, rtol=0, atol=1e-9 * max(1.0, float(np.max(np.abs(one))))):
+                res["fails"].append(["window-fn", "get_pfb_voltages(window_fn=%r) differs from the filterbank object's output" % (wf,)])
+                break
     # pfb_frontend on the first call's chunk against the model rows for that chunk alone
     if c.get("front_rows") is not None:
         call = c["calls"][0]
